@@ -24,14 +24,16 @@ def getMaxH : Sexp → Option (Option Rat)
 def getBox : Nat → Sexp → Option Box
   | 0, _ => none
   | fuel + 1, .list [.atom "b", .list [ml, mr, mt, mb, pl, pr, pt, pb], .list [bl, br, bt, bb],
-           .list [w, minW, maxW, h], minH, maxH, sz, .list cs] => do
+           .list [w, minW, maxW, h], minH, maxH, sz, lines, lineH, .list cs] => do
     let s : Style := {
       ml := ← getDim ml, mr := ← getDim mr, mt := ← getDim mt, mb := ← getDim mb,
       pl := ← getDim pl, pr := ← getDim pr, pt := ← getDim pt, pb := ← getDim pb,
       bl := ← bl.asRat?, br := ← br.asRat?, bt := ← bt.asRat?, bb := ← bb.asRat?,
       width := ← getDim w, minW := ← getDim minW, maxW := ← getDim maxW, height := ← getDim h,
-      minH := ← getDim minH, maxH := ← getDim maxH, sizing := ← getSizing sz }
-    some (.mk s (← cs.mapM (getBox fuel)))
+      minH := ← getDim minH, maxH := ← getDim maxH, sizing := ← getSizing sz, lines := ← lines.asNat?, lineH := ← lineH.asRat? }
+    -- text directly beside block children would create anonymous block boxes: outside the model
+    if s.lines != 0 && !cs.isEmpty then none
+    else some (.mk s (← cs.mapM (getBox fuel)))
   | _, _ => none
 
 def putLBox (b : LBox) : Sexp :=
